@@ -42,7 +42,7 @@ def verify_contract(verifier, cls, **kw):
 
 
 def discharge_all(obs, quick_ms=300, cli_timeout_s=20, all_solvers=False, seed=0, workdir=None, threads=3,
-                  _nodedupe=False):
+                  _nodedupe=False, cheap_keys=()):
     """Stage 1: in-process z3 with a short budget (sequential: z3py contexts are not thread safe).
     Stage 2: everything not proved goes to the command-line portfolio, several obligations at a time."""
     from concurrent.futures import ThreadPoolExecutor
@@ -60,6 +60,16 @@ def discharge_all(obs, quick_ms=300, cli_timeout_s=20, all_solvers=False, seed=0
             dup.append((ob, seen[key]))
             continue
         seen[key] = ob
+        # most obligations do not need the quantified hypotheses (all(...) results, list coercions, policy
+        # predicates): try without them first - fewer hypotheses can only make the proof harder, never unsound
+        if any(tm.has_quantifier(a) for a in sliced[:-1]):
+            qf = [a for a in sliced[:-1] if not tm.has_quantifier(a)] + [neg]
+            r = solve.z3_check(qf, 5000, want_model=False, seed=seed, rlimit=150000)
+            if r.verdict == "unsat" and not all_solvers:
+                r.all = {"z3py": ("unsat", round(r.time, 3))}
+                r.solver = "z3py(quantifier-free hypotheses)"
+                ob.result = r
+                continue
         r = solve.z3_check(sliced, 5000, want_model=False, seed=seed, rlimit=150000)
         if r.verdict == "unsat" and not all_solvers:
             r.all = {"z3py": ("unsat", round(r.time, 3))}
@@ -69,8 +79,19 @@ def discharge_all(obs, quick_ms=300, cli_timeout_s=20, all_solvers=False, seed=0
 
     def work(item):
         ob, sliced, r0 = item
+        cli_t = cli_timeout_s
+        if ob.oid.rsplit("#", 1)[0] in cheap_keys:
+            cli_t = min(cli_timeout_s, 4)       # obligation of a recorded known finding: expected not to be provable
+        res = {}
+        if any(tm.has_quantifier(a) for a in sliced[:-1]) and not all_solvers:
+            qf = [a for a in sliced[:-1] if not tm.has_quantifier(a)] + [sliced[-1]]
+            res = solve.cli_race(tm.smt_script(qf, produce_models=False), min(cli_t, 5), workdir)
+            if any(v.verdict == "unsat" for v in res.values()):
+                res = {k + "/qf-hyps": v for k, v in res.items() if v.verdict == "unsat"}
+                res["z3py"] = r0
+                return ob, ("unsat", res)
         script = tm.smt_script(sliced, produce_models=False)
-        res = solve.cli_race(script, cli_timeout_s, workdir, wait_all=all_solvers)
+        res = solve.cli_race(script, cli_t, workdir, wait_all=all_solvers)
         res["z3py"] = r0
         definite = {v.verdict for v in res.values() if v.verdict != "unknown"}
         if len(definite) > 1:
@@ -78,7 +99,7 @@ def discharge_all(obs, quick_ms=300, cli_timeout_s=20, all_solvers=False, seed=0
         verdict = definite.pop() if definite else "unknown"
         if verdict != "unsat" and len(sliced) < len(ob.pc) + 1:
             full = tm.smt_script(list(ob.pc) + [tm.Not(ob.goal)], produce_models=False)
-            res2 = solve.cli_race(full, cli_timeout_s, workdir, wait_all=False)
+            res2 = solve.cli_race(full, cli_t, workdir, wait_all=False)
             d2 = {v.verdict for v in res2.values() if v.verdict != "unknown"}
             if "unsat" in d2:
                 verdict, res = "unsat", {k + "/full": v for k, v in res2.items()}
@@ -86,7 +107,7 @@ def discharge_all(obs, quick_ms=300, cli_timeout_s=20, all_solvers=False, seed=0
                     v.solver = v.solver + "/full"
             elif verdict == "unknown" and d2:
                 verdict, res = d2.pop(), res2
-        if verdict == "unknown" and any(tm.has_quantifier(a) for a in list(ob.pc) + [ob.goal]):
+        if verdict == "unknown" and cli_t == cli_timeout_s and any(tm.has_quantifier(a) for a in list(ob.pc) + [ob.goal]):
             # bounded falsification (lists of length <= 2, quantified hypotheses expanded): a model of
             # the restricted problem is a genuine counter-model; an unsat answer proves nothing
             inst = tm.bounded_instance(list(ob.pc) + [tm.Not(ob.goal)], 2)
@@ -120,7 +141,8 @@ def discharge_all(obs, quick_ms=300, cli_timeout_s=20, all_solvers=False, seed=0
         else:
             redo.append(ob)       # anything else is decided on this obligation's own full path condition
     if redo:
-        discharge_all(redo, quick_ms, cli_timeout_s, all_solvers, seed, workdir, threads, _nodedupe=True)
+        discharge_all(redo, quick_ms, cli_timeout_s, all_solvers, seed, workdir, threads, _nodedupe=True,
+                      cheap_keys=cheap_keys)
     # models for failed obligations (in-process z3, bounded effort) -- used for replay only
     for ob in obs:
         if ob.result.verdict == "sat":
